@@ -71,7 +71,18 @@ class StftMonitor:
             return None
         a = inf["args"]
         fl, fs = int(comp.frame_length), int(comp.frame_shift)
-        style = comp.frame_style
+        style = compmon.documented_style(comp, a)
+        if comp.frame_style != style and not getattr(comp, "_vf_style_reported", False):
+            try:
+                comp._vf_style_reported = True
+            except Exception:
+                pass
+            self.v("frame_style is %r; documented for frame_style=%r and a %s bank: %r" % (comp.frame_style, a.get("frame_style"),
+                   "zero-phase" if comp.bank.is_zero_phase else "non-zero-phase", style), check="frame_style")
+        if a.get("frame_style") is None:
+            self.rec.count("stft_default_frame_style")
+        if a.get("window_function") is None:
+            self.rec.count("stft_default_window")
         kaldi = bool(a.get("kaldi_shift"))
         pad = bool(a.get("pad_to_nearest_power_of_two"))
         widths = inf["trunc_widths"]
